@@ -60,7 +60,11 @@ func (node *tagCycleNode) Execute(ctx *ExecutionContext, writer TemplateWriter) 
 		t.value = val
 
 		if !t.node.silent {
-			writer.WriteString(val.String())
+			out, err := cycleOutput(ctx, item, val)
+			if err != nil {
+				return err
+			}
+			writer.WriteString(out)
 		}
 	} else {
 		// Regular call
@@ -74,11 +78,28 @@ func (node *tagCycleNode) Execute(ctx *ExecutionContext, writer TemplateWriter) 
 			ctx.Private[node.asName] = cycleValue
 		}
 		if !node.silent {
-			writer.WriteString(val.String())
+			out, err := cycleOutput(ctx, item, val)
+			if err != nil {
+				return err
+			}
+			writer.WriteString(out)
 		}
 	}
 
 	return nil
+}
+
+// cycleOutput renders a cycle item like a variable node does: escaped when
+// autoescape is on, unless the value is safe or the safe filter was applied.
+func cycleOutput(ctx *ExecutionContext, item IEvaluator, val *Value) (string, *Error) {
+	if ctx.Autoescape && !val.safe && !item.FilterApplied("safe") && (val.IsString() || val.isStringer()) {
+		escaped, err := ApplyFilter("escape", val, nil)
+		if err != nil {
+			return "", err
+		}
+		return escaped.String(), nil
+	}
+	return val.String(), nil
 }
 
 // HINT: We're not supporting the old comma-separated list of expressions argument-style
